@@ -463,14 +463,11 @@ def key_params_of_site(b, i, kind, f):
             return _byte_params(b, prov.operand_origins(b, t["a"][1], deep=True).params())
         return set()
     # payload: receiver derives from a get_mut/get on the shard map; take that call's key operand
-    shared.from_dataset(b, t["a"][0])          # initialises the pass-through table
-    P = prov.operand_origins(b, t["a"][0], stop_calls=re.compile(SHARD_MAP), pass_through=shared._DATASET_PT)
     ks = set()
-    for r in P.roots:
-        if r[0] == "call" and re.search(SHARD_MAP, r[1]):
-            tt = b.term(r[2])
-            if len(tt["a"]) >= 2:
-                ks |= _byte_params(b, prov.operand_origins(b, tt["a"][1], deep=True).params())
+    for x_ in shared.dataset_lookup_blocks(b, t["a"][0]):
+        tt = b.term(x_)
+        if len(tt["a"]) >= 2:
+            ks |= _byte_params(b, prov.operand_origins(b, tt["a"][1], deep=True).params())
     return ks
 
 
@@ -512,13 +509,11 @@ def rule_w1(ctx, R):
                 continue
             short = shared.short_callee(f) if kind != "store" else "store"
             if kind == "store":
-                P = prov.operand_origins(b, {"cp": {"l": [st for (j, st) in stores if j == i][0]["l"]["l"], "p": []}}, stop_calls=re.compile(SHARD_MAP))
                 ks = set()
-                for r in P.roots:
-                    if r[0] == "call" and re.search(SHARD_MAP, r[1]):
-                        tt = b.term(r[2])
-                        if len(tt["a"]) >= 2:
-                            ks |= _byte_params(b, prov.operand_origins(b, tt["a"][1], deep=True).params())
+                for x_ in shared.dataset_lookup_blocks(b, {"cp": {"l": [st for (j, st) in stores if j == i][0]["l"]["l"], "p": []}}):
+                    tt = b.term(x_)
+                    if len(tt["a"]) >= 2:
+                        ks |= _byte_params(b, prov.operand_origins(b, tt["a"][1], deep=True).params())
             else:
                 ks = key_params_of_site(b, i, kind, f)
             keyname = "*" if ks is None else ",".join(sorted(b.local_name(k) for k in ks)) or "?"
